@@ -53,6 +53,8 @@ def to_smt2(ob: Oblig) -> str:
             need.update(["pcell.unfold", "pcell.mono", "W.range", "W.ascii"])
         if seqs.mentions(t, seqs.psum):
             need.add("psum.unfold")
+        if seqs.mentions(t, seqs.rpsum):
+            need.add("rpsum.unfold")
     for n in sorted(need):
         s.add(ax[n])
     for a in ob.assumptions:
